@@ -735,6 +735,18 @@ Proof.
     + cbn [set_kill t_id t_owner] in *. eapply inv_bound; eauto.
 Qed.
 
+Lemma relock_inv id s : inv s -> inv (with_roster s (relock_task id (s_roster s))).
+Proof.
+  intro I. unfold with_roster. constructor; cbn [s_roster s_envs s_snaps]; try apply I.
+  - rewrite relock_ids. apply I.
+  - intros t' e Hin Ho. apply relock_spec in Hin. destruct Hin as [t [Ht [E1 E2]]].
+    rewrite E1. eapply inv_owner; eauto. congruence.
+  - intros p t' Hp Hin. apply relock_spec in Hin. destruct Hin as [t [Ht [E1 E2]]].
+    rewrite E1. eapply inv_snap_r; eauto.
+  - intros x t' Hx Hin Ho. apply relock_spec in Hin. destruct Hin as [t [Ht [E1 E2]]].
+    rewrite E1. eapply inv_bound; eauto. congruence.
+Qed.
+
 Lemma snap_spec e s s' u :
   inv s -> usedb s e = false -> snap e false s = (s', u) ->
   inv s' /\ o_cmds u = [] /\ o_kills u = snd (cleanup (s_roster s)) /\
@@ -799,7 +811,7 @@ Lemma step_spec s o s' u :
   inv s -> wf_op s o = true -> step s o = (s', u) ->
   inv s' /\ (is_request o = true -> frame_of o s s' u).
 Proof.
-  intros I W. destruct o as [e missing|e c|e c|e ev fail|e force allow keep tfail| |ids|t|fids|rids|];
+  intros I W. destruct o as [e missing|e c|e c|e ev fail|e force allow keep tfail| |ids|t|fids|rids|rt| |sids|];
     cbn [step wf_op is_request] in *; unfold frame_of; cbn [op_env].
   - (* OSnap *)
     apply negb_true_iff in W. destruct missing.
@@ -847,6 +859,19 @@ Proof.
     intro H; injection H as <- <-. split; [apply fail_inv, I|discriminate].
   - (* ORefuse *)
     intro H; injection H as <- <-. split; [apply refuse_inv, I|discriminate].
+  - (* ORelock *)
+    intro H; injection H as <- <-. split; [apply relock_inv, I|discriminate].
+  - (* ONop *)
+    intro H; injection H as <- <-. split; [exact I|]. intros _ e. apply framed_framed2, good_framed; [exact I|apply good_refl].
+  - (* OCleanupStale: by the source fact cleanup_is_atomic it is a KillTasks of tasks that are unlocked now *)
+    rewrite stale_cleanup_is_kill.
+    destruct (kill_tasks sids (s_roster s)) as [r' k] eqn:Ec. intro H; injection H as <- <-.
+    assert (G : forall e, good e s (with_roster s r') (ks (mkOut 0 k [] [] [] 0 []))).
+    { intro e. unfold ks, with_roster; cbn [o_kills o_cmds]. rewrite app_nil_r.
+      apply good_mk; [|constructor|].
+      - replace r' with (fst (kill_tasks sids (s_roster s))) by (rewrite Ec; reflexivity). constructor. constructor.
+      - intros x Hx. eapply kill_touched. rewrite Ec. exact Hx. }
+    split; [eapply good_inv; [exact I|apply (G 0)]|]. intros _ e. apply framed_framed2, good_framed; auto.
   - (* ORecon: by the source fact uts_executor_write_guarded the update changes nothing *)
     intro H; injection H as <- <-. rewrite recon_tasks_id. split; [|discriminate].
     destruct s; exact I.
